@@ -17,10 +17,10 @@ demo=$(ls $SRC/*_test.go 2>/dev/null | head -1)
 pkg=$(grep -m1 '^package ' $demo | awk '{print $2}')
 cp $demo ./zz_demo_test.go
 names=$(grep -o '^func Test[A-Za-z0-9_]*' zz_demo_test.go | sed 's/func //' | paste -sd'|')
-with=$(go test -vet=off -count=1 -run "^($names)\$" . 2>&1 | tail -15)
+with=$(go test $DEMO_FLAGS -vet=off -count=1 -run "^($names)\$" . 2>&1 | tail -15)
 echo "$with" | grep -q -- "--- FAIL\|^FAIL\|panic:" || { echo "demo does NOT fail with the change:"; echo "$with"; exit 3; }
 rm zz_demo_test.go; git checkout -q -- . ; cp $demo ./zz_demo_test.go
-without=$(go test -vet=off -count=1 -run "^($names)\$" . 2>&1 | tail -5)
+without=$(go test $DEMO_FLAGS -vet=off -count=1 -run "^($names)\$" . 2>&1 | tail -5)
 echo "$without" | grep -q "^ok" || { echo "demo does NOT pass without the change:"; echo "$without"; exit 3; }
 mkdir -p /verif/seeded/$ID
 cp $SRC/patch.diff /verif/seeded/$ID/patch.diff
@@ -32,7 +32,7 @@ i,prop,needs,caught,names,head=sys.argv[1:7]
 json.dump({"id":i,"breaks_property":prop,"needs_to_manifest":needs,
  "confirmed":{"repo_head":head,"compiles":True,"existing_suite_passes_with_change":True,
    "demo_tests":names.split("|"),"demo_fails_with_change":True,"demo_passes_without_change":True,
-   "how":"scratch git worktree of /repo HEAD; git apply patch.diff; go build ./...; go test -vet=off -count=1 ./...; demo copied as zz_demo_test.go and run with -run; patch reverted and demo run again"},
+   "demo_flags":__import__("os").environ.get("DEMO_FLAGS",""),"how":"scratch git worktree of /repo HEAD; git apply patch.diff; go build ./...; go test -vet=off -count=1 ./...; demo copied as zz_demo_test.go and run with -run; patch reverted and demo run again"},
  "caught_by":caught.split(",") if caught else [],
  "demo_file":"demo_test.go.txt (renamed so that nothing under /verif compiles it by accident)"},
  open("/verif/seeded/%s/meta.json"%i,"w"),indent=1)
